@@ -349,6 +349,13 @@ Session::ConsumeResult Session::consume(OutputStream& out)
     //  - Producer closes the queue
     //  - Consumer finds queue is closed, removes it -> data loss
     const bool isClosed = (channelptr.use_count() == 1);
+    if (isClosed)
+    {
+      // use_count() is a relaxed load. Synchronize with the writer that dropped its reference,
+      // otherwise its last events are not guaranteed to be visible to beginRead below,
+      // and would be lost together with the channel.
+      std::atomic_thread_fence(std::memory_order_acquire);
+    }
 
     Channel& ch = *channelptr;
 
